@@ -199,7 +199,7 @@ PROP_FIELDS = {
 
 def body(pid, tier, seed, rep, only_prop=False, scale=1):
     rng = rng_for(seed, "render")
-    n = (220 if tier == "quick" else 4000) * scale
+    n = (600 if tier == "quick" else 6000) * scale
     want = {"C07": ("geom", "scale", "layout", "size"), "C08": ("geom", "layout"), "C09": ("pic", "geom")}[pid]
     lines, metas = [], []
     for _ in range(n):
@@ -261,16 +261,33 @@ def body_c11(tier, seed, rep, only_prop=False, scale=1):
         rep.case(json.dumps(spec, sort_keys=True, default=str), nontrivial=True, sample={"kind": spec["kind"], "n": len(spec["data"]), "options": spec["options"], "opt_mode": spec["opt_mode"]} if k < 3 else None)
         if degenerate:
             rep.count("degenerate-domain")
+    # large inputs of the claim: up to 1000 labels with a conflict cluster of up to 200 labels
+    for k in range(1 if tier == "quick" else 8):
+        nlab = 300 if tier == "quick" else rng.choice([400, 1000])
+        cluster = rng.choice([150, 200])
+        ts = [500 + rng.random() * 0.001 for _ in range(cluster)] + [rng.uniform(0, 1000) * 50 for _ in range(nlab - cluster)]
+        spec = {"kind": "number", "data": [{"time": t, "width": rng.choice([10, 20, 5])} for t in ts],
+                "options": {"direction": rng.choice(["up", "right"]), "labella": {"algorithm": rng.choice(["overlap", "none"]), "maxPos": rng.choice([None, 20000])}, "domain": [0, 50000], "initialWidth": 20040, "initialHeight": 20040},
+                "opt_mode": "given"}
+        rep.count("large-input")
+        for backend in ("svg", "tikz"):
+            try:
+                TG.export(TG.construct(spec, backend))
+            except Exception as e:
+                rep.prop_fail.append(("%s export of %d labels (cluster of %d) raised %s: %s" % (backend, nlab, cluster, type(e).__name__, e), {"case": {"kind": "timeline", "spec": spec, "backend": backend}}))
+        rep.case("large-%d" % k, nontrivial=True)
     # F3: the recorded known finding, demonstrated (not part of the claim)
     from common import load_known
     known = {k["id"]: k for k in load_known()["known"] if k["property"] == "C11"}
     if "F3" in known:
-        spec = {"kind": "number", "data": [{"time": 5, "width": 10} for _ in range(300)], "options": {}, "opt_mode": "given"}
+        spec = {"kind": "number", "data": [{"time": 5 + k * 1e-6, "width": 10} for k in range(300)], "options": {"domain": [0, 10]}, "opt_mode": "given"}
         try:
             TG.export(TG.construct(spec, "svg"))
             rep.log("F3 no longer reproduces (300 labels at one position exported fine)")
         except RecursionError:
             rep.known_seen["F3"] = known["F3"]["message"]
+        except Exception as e:
+            rep.prop_fail.append(("svg export raised %s: %s" % (type(e).__name__, e), {"case": {"kind": "timeline", "spec": spec, "backend": "svg"}}))
 
 
 def run(pid, tier, seed, replay=None):
